@@ -467,6 +467,21 @@ def alias_goals(ph, st):
     return g
 
 
+def carries_early_value(o, depth=0):
+    """does the object (recursively through its fields) hold a value computed by an expression evaluation of this pass?"""
+    if depth > 6:
+        return False
+    if isinstance(o, I.Sym):
+        return any(str(v).startswith('ev_') and not str(v).startswith('ev_ok') for v in z3.z3util.get_vars(o.t))
+    if isinstance(o, StrOfInt):
+        return carries_early_value(o.value, depth + 1)
+    if isinstance(o, I.SObj):
+        return any(carries_early_value(v, depth + 1) for k, v in o.fields.items() if k != 'line')
+    if isinstance(o, (list, tuple)):
+        return any(carries_early_value(v, depth + 1) for v in o)
+    return False
+
+
 def same_val(a, b):
     """identity up to copy.deepcopy"""
     if a is b:
@@ -561,6 +576,10 @@ def layout_obligations(ctx, ph, cls, name, paths, tag, replay):
         same_line = all(isinstance(o, I.SObj) and same_line_obj(o.fields.get('line'), st.item.fields.get('line')) for o in st.appended)
         goals['line'] = z3.BoolVal(same_line)
         goals['init'] = z3.BoolVal(bool(init_ok))
+        if ph.pass_name in ('transform_compressible', 'transform_pseudo_instructions', 'resolve_aligns', 'resolve_labels'):
+            # C08 (3): values evaluated BEFORE the final layout (size choice of li / call / tail, compression predicates) may
+            # only select a shape; no appended item may carry such a value (it would be stale once labels move)
+            goals['decision-time-values-are-not-baked'] = z3.BoolVal(not any(carries_early_value(o) for o in st.appended))
         # stores into the label table: only resolve_labels defines labels, with the current position
         if ph.pass_name == 'resolve_labels' and cls.name == 'Label':
             w = st.labels.writes
